@@ -131,8 +131,8 @@ def run(tier, seed):
         if gen[0] is None: gen[0] = progs.Gen(rnd, PROFILE)
         return gen[0].case()
     nm = len(pending)
-    return tracecheck.run(PID, tier, seed, PROFILE, oracle, n_quick=nm + 400, n_thorough=nm + 8000, require_props=False, mask=1 | 4 | 8, mutation_oracle=True,
-                          level="translation_validation", casegen=casegen)
+    return tracecheck.run(PID, tier, seed, PROFILE, oracle, n_quick=nm + 400, n_thorough=nm + 8000, mask=1 | 4 | 8, mutation_oracle=True,
+                          casegen=casegen)
 
 
 def replay(payload):
